@@ -6,7 +6,8 @@ export GOFLAGS=-mod=mod GOPROXY=off
 mkdir -p .work evidence replays
 (cd tools/extract && go build -o ../../.work/extract .)
 ./.work/extract "${VERIF_REPO:-/repo}" lean/RsyncModel/Gen || true
-(cd lean && lake build)
+# root module imports every model, lemma, property and generated module, so that one build checks everything
+(cd lean && find RsyncModel -name "*.lean" | sort | sed -e "s/\.lean$//" -e "s#/#.#g" -e "s/^/import /" > RsyncModel.lean && lake build)
 tools/buildharness.sh "${VERIF_REPO:-/repo}" .work/verifharness
 python3 -c "import json; json.load(open('known_findings.json')); json.load(open('MANIFEST.json'))"
 echo setup done
